@@ -52,3 +52,32 @@ func VfC28_AfterClose() {
 	vfAssert("C28.closed.close.again", c.Close() == nil) // the second Close does nothing
 	vfAssert("C28.closed.nothing.registered", len(c.dispatch) == 0)
 }
+
+// VfC28_CloseClose: the user's Close overlaps with the Close the reader
+// goroutine runs when the agent drops the connection: whatever the
+// interleaving, nothing panics (the shutdown channel is closed once) and the
+// subscriber is cleaned up exactly once.
+//
+//vf:sched
+//vf:switches quick=3 thorough=4
+//vf:paths quick=800000 thorough=8000000
+//vf:unwind 16
+//vf:bound threads Close || Close with one registered stream subscriber
+//vf:stub connection -> zero net.TCPConn
+//vf:nonative
+func VfC28_CloseClose() {
+	c := vfClient()
+	c.conn = &vfTCPConn
+	evCh := make(chan map[string]any, 4)
+	h := &streamHandler{client: c, initCh: make(chan error, 1), eventCh: evCh, seq: 5}
+	c.handleSeq(5, h)
+	vfGo(func() { c.Close() }) //nolint:errcheck
+	c.Close()                   //nolint:errcheck
+	vfWaitThreads()
+	vfReach("C28.closeclose.done")
+	vfAssert("C28.closeclose.closed", c.IsClosed() && h.closed)
+	_, open := <-evCh
+	vfAssert("C28.closeclose.subscriber.closed", !open)
+	_, still := c.dispatch[5]
+	vfAssert("C28.closeclose.deregistered", !still)
+}
